@@ -94,7 +94,9 @@ var appClient = &http.Client{Transport: &http.Transport{MaxIdleConnsPerHost: 64}
 func (e *appEnv) do(port int, method, path string, hdr map[string]string, body []byte, timeout time.Duration) (int, []byte, http.Header, error) {
 	req, _ := http.NewRequest(method, fmt.Sprintf("http://127.0.0.1:%d%s", port, path), bytes.NewReader(body))
 	for k, v := range hdr {
-		req.Header.Set(k, v)
+		for _, line := range strings.Split(v, "\n") { // (a value with line breaks: the field on several header lines)
+			req.Header.Add(k, line)
+		}
 	}
 	cl := appClient
 	if timeout > 0 {
@@ -301,51 +303,66 @@ func appAuthDriver(a *Args) {
 		case rid == pend[bA.ID] || rid == pend[bB.ID]:
 			ridKind = "other"
 		}
-		before := e.ae.Snapshot()
-		ncalls := e.ae.NCalls()
-		var st int
-		var body []byte
-		switch c.Endpoint {
-		case "pending":
-			st, body, _, _ = e.do(e.agPort, "GET", "/agent/pending", agentHdr(identity, named, ""), nil, 40*time.Second)
-		case "request":
-			st, body, _, _ = e.do(e.agPort, "GET", "/agent/request", agentHdr(identity, named, rid), nil, 0)
-		default:
-			st, body, _, _ = e.do(e.agPort, "POST", "/agent/response", agentHdr(identity, named, rid), []byte("HTTP/1.1 200 OK\r\nContent-Length: 2\r\n\r\nok"), 0)
+		// the backend-ID header as one line, and - where the caller owns another backend than the one it names -
+		// with that backend's ID on a second line: the backend a call names is the one on the first line
+		forms := []string{""}
+		ownID := map[string]string{bA.BackendUser: bA.ID, bB.BackendUser: bB.ID}[identity]
+		if ownID != "" && named != "" && named != ownID {
+			forms = append(forms, ":own-backend-on-second-line")
 		}
-		after := e.ae.Snapshot()
-		leaked := false
-		for r, s := range secret {
-			// (echoing the request ID the caller itself supplied reveals nothing)
-			if bytes.Contains(body, []byte(s)) || (r != rid && bytes.Contains(body, []byte(r))) {
-				// an authorised caller may see its own backend's data; anything else is a leak
-				if !(st == 200 && named != "" && (r == pend[named])) {
-					leaked = true
+		for _, form := range forms {
+			hdrNamed := named
+			if form != "" {
+				hdrNamed = named + "\n" + ownID
+				ensurePending(bA)
+				ensurePending(bB)
+			}
+			before := e.ae.Snapshot()
+			ncalls := e.ae.NCalls()
+			var st int
+			var body []byte
+			switch c.Endpoint {
+			case "pending":
+				st, body, _, _ = e.do(e.agPort, "GET", "/agent/pending", agentHdr(identity, hdrNamed, ""), nil, 40*time.Second)
+			case "request":
+				st, body, _, _ = e.do(e.agPort, "GET", "/agent/request", agentHdr(identity, hdrNamed, rid), nil, 0)
+			default:
+				st, body, _, _ = e.do(e.agPort, "POST", "/agent/response", agentHdr(identity, hdrNamed, rid), []byte("HTTP/1.1 200 OK\r\nContent-Length: 2\r\n\r\nok"), 0)
+			}
+			after := e.ae.Snapshot()
+			leaked := false
+			for r, s := range secret {
+				// (echoing the request ID the caller itself supplied reveals nothing)
+				if bytes.Contains(body, []byte(s)) || (r != rid && bytes.Contains(body, []byte(r))) {
+					// an authorised caller may see its own backend's data; anything else is a leak
+					if !(st == 200 && named != "" && (r == pend[named])) {
+						leaked = true
+					}
 				}
 			}
-		}
-		ownOnly := true
-		for _, call := range e.ae.CallsSince(ncalls) {
-			for _, k := range call.Kinds {
-				if strings.HasPrefix(k, "req:") && k != fmt.Sprintf("req:%q", named) {
-					ownOnly = false
+			ownOnly := true
+			for _, call := range e.ae.CallsSince(ncalls) {
+				for _, k := range call.Kinds {
+					if strings.HasPrefix(k, "req:") && k != fmt.Sprintf("req:%q", named) {
+						ownOnly = false
+					}
 				}
 			}
-		}
-		if c.Endpoint == "pending" && st == 200 {
-			var ids []string
-			json.Unmarshal(body, &ids)
-			for _, id := range ids {
-				if named == "" || id != pend[named] {
-					ownOnly = false
+			if c.Endpoint == "pending" && st == 200 {
+				var ids []string
+				json.Unmarshal(body, &ids)
+				for _, id := range ids {
+					if named == "" || id != pend[named] {
+						ownOnly = false
+					}
 				}
 			}
+			call := map[string]interface{}{"endpoint": c.Endpoint, "oauth": identity, "backend": named, "rid": ridKind}
+			obs := map[string]interface{}{"status": st, "leaked": leaked, "changed": before != after, "own_only": ownOnly}
+			sig := fmt.Sprintf("auth:%s/%s/%s/%s", c.Endpoint, c.Identity, c.Backend, c.Rid) + form
+			hx.Emit("AgentCall", "case", fmt.Sprint(i)+form, "sig", sig, "call", call, "obs", obs)
+			res.Case(sig, map[string]interface{}{"classes": c, "status": st})
 		}
-		call := map[string]interface{}{"endpoint": c.Endpoint, "oauth": identity, "backend": named, "rid": ridKind}
-		obs := map[string]interface{}{"status": st, "leaked": leaked, "changed": before != after, "own_only": ownOnly}
-		sig := fmt.Sprintf("auth:%s/%s/%s/%s", c.Endpoint, c.Identity, c.Backend, c.Rid)
-		hx.Emit("AgentCall", "case", fmt.Sprint(i), "sig", sig, "call", call, "obs", obs)
-		res.Case(sig, map[string]interface{}{"classes": c, "status": st})
 	}
 	// registrations that change over time (histories enumerated by TLC from AppAuth.tla): every agent call is
 	// judged against the registration in force when it is made
